@@ -188,6 +188,25 @@ def run(ck):
                     if not all(abs(v_ - w_) <= 1e-9 * (1 + abs(w_)) for v_, w_ in zip(bb_, (min(b1[0], b2[0]), max(b1[1], b2[1]), min(b1[2], b2[2]), max(b1[3], b2[3])))):
                         ck.disagree(key='Path.bbox/not-the-union', site='svgpathtools/path.py:Path.bbox', what='path of %s of %r plus a line: bbox %r, members %r %r' % (on_, g, bb_, b1, b2),
                                     case={'seg': repr(g), 'op': on_}, expected=[list(b1), list(b2)], observed=list(bb_), driver='derived')
+    # paths made of lines only with pen-up jumps (several strokes): the box is the union of the strokes' boxes - the vertices after a jump count too
+    strokes = [[(0j, 3 + 4j), (3 + 4j, 5 + 1j)], [(10 + 9j, 12 - 6j)], [(-7 + 2j, -7 - 3j), (-7 - 3j, -2 - 8j)], [(1 + 1j, 1 + 1j)], [(20 + 0j, 14 + 15j), (14 + 15j, 13 + 2j)]]
+    import itertools
+    for r_ in (2, 3):
+        for combo in itertools.permutations(range(len(strokes)), r_):
+            segs = [sp.Line(a_, b_) for ci in combo for a_, b_ in strokes[ci]]
+            for rev in (False, True):
+                pth = sp.Path(*(segs if not rev else [sg_.reversed() for sg_ in reversed(segs)]))
+                ck.case(fp=('line-strokes', combo, rev), nontrivial=True)
+                xs = [z_.real for sg_ in pth for z_ in (sg_.start, sg_.end)]
+                ys = [z_.imag for sg_ in pth for z_ in (sg_.start, sg_.end)]
+                exp = (min(xs), max(xs), min(ys), max(ys))
+                try:
+                    got = tuple(pth.bbox())
+                except Exception as e:      # noqa
+                    got = e
+                if got != exp:
+                    ck.disagree(key='Path.bbox/strokes-of-lines', site='svgpathtools/path.py:Path.bbox', what='%r: bbox %r, the vertices span %r' % (pth, got, exp), case={'strokes': list(combo), 'reversed': rev},
+                                expected=list(exp), observed=repr(got), driver='path')
     # paths: union of the segments' boxes
     pool = [sp.Line(0j, 3 + 4j), sp.QuadraticBezier(3 + 4j, 8 + 9j, 5 + 0j), sp.CubicBezier(5 + 0j, 1 - 6j, 9 - 6j, 6 + 1j),
             sp.Arc(6 + 1j, 3 + 2j, 30, True, False, 2 + 2j), sp.Line(-7 + 2j, -7 - 3j), sp.CubicBezier(0j, 0j, 3 + 3j, -3 + 3j),
